@@ -138,14 +138,14 @@ Proof.
   - pose proof (gcd_le_abs a b E). lia.
 Qed.
 
-Lemma gcd_correct_partial : forall m w a b, 0 < w ->
+Lemma old_gcd_correct_partial : forall m w a b, 0 < w ->
   in_range Signed w a = true -> in_range Signed w b = true -> a <> lo Signed w -> b <> lo Signed w ->
-  impl_gcd m w a b = Some (spec_gcd w a b).
+  old_impl_gcd m w a b = Some (spec_gcd w a b).
 Proof.
   intros m w a b Hw Ha Hb Na Nb.
   destruct (rust_abs_ok m w a Hw Ha Na) as [Ea Ra]. destruct (rust_abs_ok m w b Hw Hb Nb) as [Eb Rb].
   pose proof (gcd_in_range w a b Hw Ha Hb Na Nb) as Hg.
-  unfold impl_gcd, spec_gcd, spec_of. rewrite Ea, Eb, Hg.
+  unfold old_impl_gcd, spec_gcd, spec_of. rewrite Ea, Eb, Hg.
   destruct (Z.abs a =? 0) eqn:Za.
   - apply Z.eqb_eq in Za. assert (a = 0) by lia. subst a. reflexivity.
   - destruct (Z.abs b =? 0) eqn:Zb.
@@ -156,10 +156,10 @@ Proof.
         pose proof (lo_signed_neg w Hw). lia.
 Qed.
 
-Lemma gcd_terminates : forall m w a b, 0 < w -> in_range Signed w a = true -> in_range Signed w b = true ->
-  impl_gcd m w a b <> None.
+Lemma old_gcd_terminates : forall m w a b, 0 < w -> in_range Signed w a = true -> in_range Signed w b = true ->
+  old_impl_gcd m w a b <> None.
 Proof.
-  intros m w a b Hw Ha Hb. unfold impl_gcd.
+  intros m w a b Hw Ha Hb. unfold old_impl_gcd.
   destruct (rust_abs_cases m w a Hw Ha) as [E|[a' [E Ra]]]; rewrite E; [discriminate|].
   destruct (rust_abs_cases m w b Hw Hb) as [E2|[b' [E2 Rb]]]; rewrite E2; [discriminate|].
   destruct (a' =? 0); [discriminate|]. destruct (b' =? 0); [discriminate|].
@@ -167,18 +167,18 @@ Proof.
 Qed.
 
 (* at the type minimum: a panic with overflow checks, for every second argument *)
-Lemma gcd_min_panics_debug : forall w b, 0 < w ->
-  impl_gcd Debug w (lo Signed w) b = Some Panic /\ impl_gcd Debug w b (lo Signed w) <> Some (spec_gcd w b (lo Signed w)).
+Lemma old_gcd_min_panics_debug : forall w b, 0 < w ->
+  old_impl_gcd Debug w (lo Signed w) b = Some Panic /\ old_impl_gcd Debug w b (lo Signed w) <> Some (spec_gcd w b (lo Signed w)).
 Proof.
-  intros w b Hw. unfold impl_gcd. rewrite (rust_abs_min Debug w Hw). split; [reflexivity|].
+  intros w b Hw. unfold old_impl_gcd. rewrite (rust_abs_min Debug w Hw). split; [reflexivity|].
   unfold rust_abs, arith_result. destruct (in_range Signed w (Z.abs b));
     unfold spec_gcd, spec_of; destruct (in_range Signed w (Z.gcd b (lo Signed w))); discriminate.
 Qed.
 
-Lemma gcd_refuted :
-  impl_gcd Debug 8 (-128) 6 = Some Panic /\ impl_gcd Release 8 (-128) 6 = Some (Ok (-2)) /\ spec_gcd 8 (-128) 6 = Ok 2 /\
-  impl_gcd Release 8 (-128) (-128) = Some (Ok (-128)) /\ spec_gcd 8 (-128) (-128) = Err /\
-  impl_gcd Release 64 (- 2 ^ 63) 0 = Some (Ok (- 2 ^ 63)) /\ spec_gcd 64 (- 2 ^ 63) 0 = Err.
+Lemma old_gcd_refuted :
+  old_impl_gcd Debug 8 (-128) 6 = Some Panic /\ old_impl_gcd Release 8 (-128) 6 = Some (Ok (-2)) /\ spec_gcd 8 (-128) 6 = Ok 2 /\
+  old_impl_gcd Release 8 (-128) (-128) = Some (Ok (-128)) /\ spec_gcd 8 (-128) (-128) = Err /\
+  old_impl_gcd Release 64 (- 2 ^ 63) 0 = Some (Ok (- 2 ^ 63)) /\ spec_gcd 64 (- 2 ^ 63) 0 = Err.
 Proof. vm_compute. repeat split; reflexivity. Qed.
 
 (* ------------------------------------------------------------------ lcm *)
@@ -195,14 +195,14 @@ Proof.
   rewrite Eb at 1. rewrite Ea at 1. rewrite !Z.abs_mul, (Z.abs_eq g) by lia. ring.
 Qed.
 
-Lemma lcm_euclid : forall m w a b, 0 < w ->
+Lemma old_lcm_euclid : forall m w a b, 0 < w ->
   in_range Signed w a = true -> in_range Signed w b = true -> a <> lo Signed w -> b <> lo Signed w ->
   a <> 0 -> b <> 0 ->
-  impl_lcm m w a b = Some (arith_result Native m Signed w (Z.lcm a b)).
+  old_impl_lcm m w a b = Some (arith_result Native m Signed w (Z.lcm a b)).
 Proof.
   intros m w a b Hw Ha Hb Na Nb Za Zb.
   destruct (rust_abs_ok m w a Hw Ha Na) as [Ea Ra]. destruct (rust_abs_ok m w b Hw Hb Nb) as [Eb Rb].
-  unfold impl_lcm. replace (a =? 0) with false by lia. replace (b =? 0) with false by lia. cbn [orb].
+  unfold old_impl_lcm. replace (a =? 0) with false by lia. replace (b =? 0) with false by lia. cbn [orb].
   rewrite Ea, Eb.
   destruct (euclid (euclid_fuel w) w (Z.abs a) (Z.abs b)) as [r|] eqn:Ee.
   - apply euclid_gcd in Ee; [|lia..]. subst r. rewrite Z.gcd_abs_l, Z.gcd_abs_r.
@@ -216,25 +216,25 @@ Proof.
     pose proof (lo_signed_neg w Hw). lia.
 Qed.
 
-Lemma lcm_correct_partial : forall m w a b, 0 < w ->
+Lemma old_lcm_correct_partial : forall m w a b, 0 < w ->
   in_range Signed w a = true -> in_range Signed w b = true -> a <> lo Signed w -> b <> lo Signed w ->
   in_range Signed w (Z.lcm a b) = true ->
-  impl_lcm m w a b = Some (spec_lcm w a b).
+  old_impl_lcm m w a b = Some (spec_lcm w a b).
 Proof.
   intros m w a b Hw Ha Hb Na Nb Hl. unfold spec_lcm, spec_of. rewrite Hl.
   destruct (Z.eq_dec a 0) as [Za|Za].
   - subst a. rewrite Z.lcm_0_l. reflexivity.
   - destruct (Z.eq_dec b 0) as [Zb|Zb].
-    + subst b. rewrite Z.lcm_0_r. unfold impl_lcm. rewrite Z.eqb_refl, orb_true_r. reflexivity.
-    + rewrite lcm_euclid by assumption. rewrite arith_result_exact by assumption. reflexivity.
+    + subst b. rewrite Z.lcm_0_r. unfold old_impl_lcm. rewrite Z.eqb_refl, orb_true_r. reflexivity.
+    + rewrite old_lcm_euclid by assumption. rewrite arith_result_exact by assumption. reflexivity.
 Qed.
 
 (* an unrepresentable least common multiple: a panic or a wrapped value, never the error *)
-Lemma lcm_unrepresentable_deviates : forall m w a b, 0 < w ->
+Lemma old_lcm_unrepresentable_deviates : forall m w a b, 0 < w ->
   in_range Signed w a = true -> in_range Signed w b = true -> a <> lo Signed w -> b <> lo Signed w ->
   in_range Signed w (Z.lcm a b) = false ->
   spec_lcm w a b = Err /\
-  impl_lcm m w a b = Some (match m with Debug => Panic | Release => Ok (wrap Signed w (Z.lcm a b)) end) /\
+  old_impl_lcm m w a b = Some (match m with Debug => Panic | Release => Ok (wrap Signed w (Z.lcm a b)) end) /\
   wrap Signed w (Z.lcm a b) <> Z.lcm a b.
 Proof.
   intros m w a b Hw Ha Hb Na Nb Hl. split; [|split].
@@ -245,25 +245,25 @@ Proof.
     assert (Zb : b <> 0).
     { intro E. subst b. rewrite Z.lcm_0_r in Hl. apply in_range_false_iff in Hl. apply Hl.
       pose proof (lo_signed_neg w Hw). rewrite hi_signed. lia. }
-    rewrite lcm_euclid by assumption. unfold arith_result. rewrite Hl. destruct m; reflexivity.
+    rewrite old_lcm_euclid by assumption. unfold arith_result. rewrite Hl. destruct m; reflexivity.
   - apply wrap_wrong_when_unrepresentable; assumption.
 Qed.
 
-Lemma lcm_terminates : forall m w a b, 0 < w -> in_range Signed w a = true -> in_range Signed w b = true ->
-  impl_lcm m w a b <> None.
+Lemma old_lcm_terminates : forall m w a b, 0 < w -> in_range Signed w a = true -> in_range Signed w b = true ->
+  old_impl_lcm m w a b <> None.
 Proof.
-  intros m w a b Hw Ha Hb. unfold impl_lcm. destruct ((a =? 0) || (b =? 0)); [discriminate|].
+  intros m w a b Hw Ha Hb. unfold old_impl_lcm. destruct ((a =? 0) || (b =? 0)); [discriminate|].
   destruct (rust_abs_cases m w a Hw Ha) as [E|[a' [E Ra]]]; rewrite E; [discriminate|].
   destruct (rust_abs_cases m w b Hw Hb) as [E2|[b' [E2 Rb]]]; rewrite E2; [discriminate|].
   pose proof (euclid_fuel_ok w a' b' Hw Rb) as Ht.
   destruct (euclid (euclid_fuel w) w a' b') as [[g| |]|]; try discriminate. contradiction.
 Qed.
 
-Lemma lcm_refuted :
-  impl_lcm Debug 8 127 126 = Some Panic /\ impl_lcm Release 8 127 126 = Some (Ok (-126)) /\ spec_lcm 8 127 126 = Err /\
-  impl_lcm Debug 8 (-128) 1 = Some Panic /\ impl_lcm Release 8 (-128) 1 = Some (Ok (-128)) /\ spec_lcm 8 (-128) 1 = Err /\
-  impl_lcm Release 8 (-128) 127 = Some Panic /\
-  impl_lcm Release 64 (2 ^ 62) 3 = Some (Ok (- 2 ^ 62)) /\ spec_lcm 64 (2 ^ 62) 3 = Err.
+Lemma old_lcm_refuted :
+  old_impl_lcm Debug 8 127 126 = Some Panic /\ old_impl_lcm Release 8 127 126 = Some (Ok (-126)) /\ spec_lcm 8 127 126 = Err /\
+  old_impl_lcm Debug 8 (-128) 1 = Some Panic /\ old_impl_lcm Release 8 (-128) 1 = Some (Ok (-128)) /\ spec_lcm 8 (-128) 1 = Err /\
+  old_impl_lcm Release 8 (-128) 127 = Some Panic /\
+  old_impl_lcm Release 64 (2 ^ 62) 3 = Some (Ok (- 2 ^ 62)) /\ spec_lcm 64 (2 ^ 62) 3 = Err.
 Proof. vm_compute. repeat split; reflexivity. Qed.
 
 (* ------------------------------------------------------------------ factorial *)
@@ -315,10 +315,10 @@ Proof.
 Qed.
 
 (* what the implementation returns for every n: n! when it fits, otherwise NULL *)
-Lemma factorial_characterised : forall n,
-  impl_factorial n = Some (Ok (if (0 <=? n) && in_range Signed 128 (zf n) then Some (zf n) else None)).
+Lemma old_factorial_characterised : forall n,
+  old_impl_factorial n = Some (Ok (if (0 <=? n) && in_range Signed 128 (zf n) then Some (zf n) else None)).
 Proof.
-  intros n. unfold impl_factorial. destruct (n <? 0) eqn:E0.
+  intros n. unfold old_impl_factorial. destruct (n <? 0) eqn:E0.
   - replace (0 <=? n) with false by lia. reflexivity.
   - replace (0 <=? n) with true by lia. cbn [andb].
     destruct ((n =? 0) || (n =? 1)) eqn:E1.
@@ -327,17 +327,17 @@ Proof.
       unfold fact_fuel. lia.
 Qed.
 
-Lemma factorial_correct_partial : forall n v, spec_factorial n = Ok v -> impl_factorial n = Some (Ok v).
+Lemma old_factorial_correct_partial : forall n v, spec_factorial n = Ok v -> old_impl_factorial n = Some (Ok v).
 Proof.
-  intros n v Hs. rewrite factorial_characterised. unfold spec_factorial in Hs. fold (zf n) in Hs.
+  intros n v Hs. rewrite old_factorial_characterised. unfold spec_factorial in Hs. fold (zf n) in Hs.
   destruct (n <? 0) eqn:E0; [discriminate|]. replace (0 <=? n) with true by lia. cbn [andb].
   destruct (in_range Signed 128 (zf n)); [|discriminate]. inversion Hs. reflexivity.
 Qed.
 
 (* where the definition has no (representable) value the function returns NULL, not an error *)
-Lemma factorial_null_where_undefined : forall n, spec_factorial n = Err -> impl_factorial n = Some (Ok None).
+Lemma old_factorial_null_where_undefined : forall n, spec_factorial n = Err -> old_impl_factorial n = Some (Ok None).
 Proof.
-  intros n Hs. rewrite factorial_characterised. unfold spec_factorial in Hs. fold (zf n) in Hs.
+  intros n Hs. rewrite old_factorial_characterised. unfold spec_factorial in Hs. fold (zf n) in Hs.
   destruct (n <? 0) eqn:E0.
   - replace (0 <=? n) with false by lia. reflexivity.
   - replace (0 <=? n) with true by lia. cbn [andb].
@@ -352,10 +352,10 @@ Proof.
     unfold spec_factorial. rewrite E0. fold (zf n). rewrite zf_big by lia. reflexivity.
 Qed.
 
-Lemma factorial_refuted :
-  impl_factorial (-1) = Some (Ok None) /\ spec_factorial (-1) = Err /\
-  impl_factorial 34 = Some (Ok None) /\ spec_factorial 34 = Err /\
-  impl_factorial 33 = Some (Ok (Some 8683317618811886495518194401280000000)).
+Lemma old_factorial_refuted :
+  old_impl_factorial (-1) = Some (Ok None) /\ spec_factorial (-1) = Err /\
+  old_impl_factorial 34 = Some (Ok None) /\ spec_factorial 34 = Err /\
+  old_impl_factorial 33 = Some (Ok (Some 8683317618811886495518194401280000000)).
 Proof. vm_compute. repeat split; reflexivity. Qed.
 
 (* ------------------------------------------------------------------ bits and ranges *)
@@ -581,11 +581,11 @@ Proof.
     destruct sg; cbn [lo hi]; lia.
 Qed.
 
-Lemma shr_correct_partial : forall sg w a b, 0 < w <= 2 ^ 31 -> in_range Signed 32 b = true ->
+Lemma old_shr_correct_partial : forall sg w a b, 0 < w <= 2 ^ 31 -> in_range Signed 32 b = true ->
   in_range sg w a = true -> (b < w \/ 0 <= a) ->
-  impl_shr sg w a b = spec_shr sg w a b.
+  old_impl_shr sg w a b = spec_shr sg w a b.
 Proof.
-  intros sg w a b Hw Hb Ha Hc. unfold impl_shr, spec_shr. destruct (b <? 0) eqn:E.
+  intros sg w a b Hw Hb Ha Hc. unfold old_impl_shr, spec_shr. destruct (b <? 0) eqn:E.
   - pose proof (as_u32_neg b ltac:(lia) Hb). replace (as_u32 b <? w) with false by lia. reflexivity.
   - rewrite as_u32_nonneg by (assumption || lia). rewrite Z.shiftr_div_pow2 by lia.
     destruct (b <? w) eqn:E2; [reflexivity|].
@@ -597,11 +597,11 @@ Proof.
 Qed.
 
 (* a negative value shifted right by at least the width: 0 instead of -1 *)
-Lemma shr_overshift_negative : forall w a b, 0 < w <= 2 ^ 31 -> in_range Signed 32 b = true ->
+Lemma old_shr_overshift_negative : forall w a b, 0 < w <= 2 ^ 31 -> in_range Signed 32 b = true ->
   in_range Signed w a = true -> a < 0 -> w <= b ->
-  impl_shr Signed w a b = Ok 0 /\ spec_shr Signed w a b = Ok (-1).
+  old_impl_shr Signed w a b = Ok 0 /\ spec_shr Signed w a b = Ok (-1).
 Proof.
-  intros w a b Hw Hb Ha Hneg Hwb. unfold impl_shr, spec_shr.
+  intros w a b Hw Hb Ha Hneg Hwb. unfold old_impl_shr, spec_shr.
   rewrite as_u32_nonneg by (assumption || lia).
   replace (b <? w) with false by lia. replace (b <? 0) with false by lia. split; [reflexivity|].
   f_equal. rewrite Z.shiftr_div_pow2 by lia. apply signed_range in Ha.
@@ -609,10 +609,10 @@ Proof.
   symmetry. apply (Z.div_unique _ _ _ (a + 2 ^ b)); lia.
 Qed.
 
-Lemma shr_in_range : forall sg w a b v, 0 < w -> in_range sg w a = true -> impl_shr sg w a b = Ok v ->
+Lemma old_shr_in_range : forall sg w a b v, 0 < w -> in_range sg w a = true -> old_impl_shr sg w a b = Ok v ->
   in_range sg w v = true.
 Proof.
-  intros sg w a b v Hw Ha H. unfold impl_shr in H.
+  intros sg w a b v Hw Ha H. unfold old_impl_shr in H.
   pose proof (pow2_pos (w - 1) ltac:(lia)). pose proof (pow2_pos w ltac:(lia)).
   destruct (as_u32 b <? w); inversion H.
   - assert (Hn : 0 <= as_u32 b) by (unfold as_u32; apply Z.mod_pos_bound; lia).
@@ -647,10 +647,10 @@ Proof.
   - symmetry. apply Z.div_small. destruct sg; cbn [lo hi] in Ha; lia.
 Qed.
 
-Lemma shift_witnesses :
-  impl_shr Signed 8 (-1) 8 = Ok 0 /\ spec_shr Signed 8 (-1) 8 = Ok (-1) /\ impl_shr Signed 8 (-1) 7 = Ok (-1) /\
+Lemma old_shift_witnesses :
+  old_impl_shr Signed 8 (-1) 8 = Ok 0 /\ spec_shr Signed 8 (-1) 8 = Ok (-1) /\ old_impl_shr Signed 8 (-1) 7 = Ok (-1) /\
   impl_shl Signed 8 1 7 = Ok (-128) /\ impl_shl Signed 8 1 8 = Ok 0 /\ impl_shl Signed 32 1 (-1) = Ok 0 /\
-  impl_shr Signed 32 (-8) (-1) = Ok 0.
+  old_impl_shr Signed 32 (-8) (-1) = Ok 0.
 Proof. vm_compute. repeat split; reflexivity. Qed.
 
 (* ------------------------------------------------------------------ round(decimal, n) *)
@@ -744,10 +744,10 @@ Proof.
   pose proof (rha_abs_le v (10 ^ k) ltac:(lia)). lia.
 Qed.
 
-Lemma round_bind_ok : forall m kd s n, in_range Signed 8 n = true -> s - Z.min n s <= maxp kd ->
-  round_bind m kd s n = Ok (Z.min n s, s - Z.min n s, 10 ^ (s - Z.min n s)).
+Lemma old_round_bind_ok : forall m kd s n, in_range Signed 8 n = true -> s - Z.min n s <= maxp kd ->
+  old_round_bind m kd s n = Ok (Z.min n s, s - Z.min n s, 10 ^ (s - Z.min n s)).
 Proof.
-  intros m kd s n Hn Hd. unfold round_bind. rewrite Hn.
+  intros m kd s n Hn Hd. unfold old_round_bind. rewrite Hn.
   assert (H0 : 0 <= s - Z.min n s) by lia.
   assert (Hm : maxp kd <= 38) by (destruct kd; cbn; lia).
   rewrite arith_result_exact; [|lia|apply signed_range; cbn; lia]. cbn [bind_out].
@@ -758,12 +758,12 @@ Proof.
   symmetry. apply in_range_iff. lia.
 Qed.
 
-Lemma round_correct_partial : forall m kd p s n v, 0 <= p <= maxp kd -> -128 <= s ->
+Lemma old_round_correct_partial : forall m kd p s n v, 0 <= p <= maxp kd -> -128 <= s ->
   in_range Signed 8 n = true -> s - Z.min n s <= maxp kd -> Z.abs v < 10 ^ p ->
-  impl_round m kd p s n v = spec_round p s n v.
+  old_impl_round m kd p s n v = spec_round p s n v.
 Proof.
-  intros m kd p s n v Hp Hs Hn Hd Hv. unfold impl_round, spec_round.
-  rewrite round_bind_ok by assumption. cbn [bind_out].
+  intros m kd p s n v Hp Hs Hn Hd Hv. unfold old_impl_round, spec_round.
+  rewrite old_round_bind_ok by assumption. cbn [bind_out].
   apply signed_range in Hn. cbn in Hn. replace (Z.min n s <? -128) with false by lia.
   destruct (Z.eq_dec (s - Z.min n s) 0) as [E|E].
   - rewrite E. change (10 ^ 0) with 1. rewrite rha_1. unfold round_val. cbn [Z.ltb Z.compare].
@@ -775,17 +775,17 @@ Proof.
     replace (Z.abs (rha v (10 ^ (s - Z.min n s))) <? 10 ^ p) with true by lia. reflexivity.
 Qed.
 
-Lemma round_refuted :
-  impl_round Debug D64 10 4 (-128) 1 = Panic /\ impl_round Release D64 10 4 (-128) 1 = Err /\
+Lemma old_round_refuted :
+  old_impl_round Debug D64 10 4 (-128) 1 = Panic /\ old_impl_round Release D64 10 4 (-128) 1 = Err /\
   spec_round 10 4 (-128) 1 = Ok (-128, 0) /\
-  impl_round Debug D64 18 18 (-1) 5 = Err /\ spec_round 18 18 (-1) 5 = Ok (-1, 0) /\
-  impl_round Debug D64 10 4 128 1 = Err /\ spec_round 10 4 128 1 = Ok (4, 1).
+  old_impl_round Debug D64 18 18 (-1) 5 = Err /\ spec_round 18 18 (-1) 5 = Ok (-1, 0) /\
+  old_impl_round Debug D64 10 4 128 1 = Err /\ spec_round 10 4 128 1 = Ok (4, 1).
 Proof. vm_compute. repeat split; reflexivity. Qed.
 
-Lemma round_examples :
-  impl_round Debug D64 10 4 2 12345678 = Ok (2, 123457) /\ impl_round Debug D64 10 4 (-2) 12545678 = Ok (-2, 13) /\
-  impl_round Debug D64 10 4 (-2) (-12500000) = Ok (-2, -13) /\ impl_round Debug D64 5 1 0 99995 = Ok (0, 10000) /\
-  impl_round Debug D128 38 38 0 (5 * 10 ^ 37) = Ok (0, 1).
+Lemma old_round_examples :
+  old_impl_round Debug D64 10 4 2 12345678 = Ok (2, 123457) /\ old_impl_round Debug D64 10 4 (-2) 12545678 = Ok (-2, 13) /\
+  old_impl_round Debug D64 10 4 (-2) (-12500000) = Ok (-2, -13) /\ old_impl_round Debug D64 5 1 0 99995 = Ok (0, 10000) /\
+  old_impl_round Debug D128 38 38 0 (5 * 10 ^ 37) = Ok (0, 1).
 Proof. vm_compute. repeat split; reflexivity. Qed.
 
 (* ------------------------------------------------------------------ abs sign ceil floor trunc round via Float64 *)
@@ -838,9 +838,9 @@ Proof. vm_compute. repeat split; reflexivity. Qed.
 (* ------------------------------------------------------------------ the hypotheses of the implication-shaped
    theorems are satisfiable *)
 Example gcd_hyps_sat : 0 < 32 /\ in_range Signed 32 12 = true /\ in_range Signed 32 (-18) = true /\
-  12 <> lo Signed 32 /\ -18 <> lo Signed 32 /\ impl_gcd Debug 32 12 (-18) = Some (Ok 6).
+  12 <> lo Signed 32 /\ -18 <> lo Signed 32 /\ old_impl_gcd Debug 32 12 (-18) = Some (Ok 6).
 Proof. vm_compute. repeat split; discriminate. Qed.
-Example lcm_hyps_sat : in_range Signed 8 (Z.lcm 4 (-6)) = true /\ impl_lcm Release 8 4 (-6) = Some (Ok 12) /\
+Example lcm_hyps_sat : in_range Signed 8 (Z.lcm 4 (-6)) = true /\ old_impl_lcm Release 8 4 (-6) = Some (Ok 12) /\
   in_range Signed 8 (Z.lcm 127 126) = false.
 Proof. vm_compute. repeat split. Qed.
 Example factorial_hyps_sat : spec_factorial 5 = Ok (Some 120) /\ spec_factorial (-3) = Err.
@@ -863,7 +863,9 @@ Lemma spec_cmp_reflects : forall a b,
   (spec_cmp CNe a b = true <-> a <> b) /\ (spec_cmp CGe a b = true <-> a >= b) /\ (spec_cmp CGt a b = true <-> a > b).
 Proof. intros a b. cbn [spec_cmp]. repeat split; lia. Qed.
 
-(* ================================================================== the repaired variants *)
+(* ================================================================== the current source (after 9b10c8448, e09e186b9, eb21ac26a,
+   36f5e65a8): checked operations, an unrepresentable result is an error, an over-long right shift keeps the sign.
+   Everything named old_* above is about the variants the source had before (regression witnesses). *)
 Lemma gcd_rem : forall a b, Z.gcd b (Z.rem a b) = Z.gcd a b.
 Proof.
   intros a b. destruct (Z.eq_dec b 0) as [E|E].
@@ -926,10 +928,10 @@ Proof.
   - rewrite Z.abs_eq by lia. rewrite Hg. reflexivity.
 Qed.
 
-Lemma gcd_c_correct : forall w a b, 0 < w -> in_range Signed w a = true -> in_range Signed w b = true ->
-  impl_gcd_c w a b = Some (spec_gcd w a b).
+Lemma gcd_correct : forall w a b, 0 < w -> in_range Signed w a = true -> in_range Signed w b = true ->
+  impl_gcd w a b = Some (spec_gcd w a b).
 Proof.
-  intros w a b Hw Ha Hb. unfold impl_gcd_c, spec_gcd.
+  intros w a b Hw Ha Hb. unfold impl_gcd, spec_gcd.
   destruct (euclid_c (euclid_fuel w) a b) as [g|] eqn:Ee.
   - destruct (euclid_c_gcd _ w a b g Hw Ha Hb Ee) as [H1 H2]. cbn [option_map].
     rewrite abs_checked_spec by assumption. rewrite H1. reflexivity.
@@ -944,10 +946,10 @@ Proof.
   rewrite Z.abs_mul, <- Z.quot_abs by assumption. rewrite Hg. apply lcm_formula. assumption.
 Qed.
 
-Lemma lcm_c_correct : forall w a b, 0 < w -> in_range Signed w a = true -> in_range Signed w b = true ->
-  impl_lcm_c w a b = Some (spec_lcm w a b).
+Lemma lcm_correct : forall w a b, 0 < w -> in_range Signed w a = true -> in_range Signed w b = true ->
+  impl_lcm w a b = Some (spec_lcm w a b).
 Proof.
-  intros w a b Hw Ha Hb. unfold impl_lcm_c, spec_lcm.
+  intros w a b Hw Ha Hb. unfold impl_lcm, spec_lcm.
   pose proof (lo_signed_neg w Hw) as Hlo. pose proof (hi_signed w) as Hhi.
   destruct (Z.eq_dec a 0) as [Za|Za].
   { subst a. cbn [Z.eqb orb]. rewrite Z.lcm_0_l. unfold spec_of. rewrite Ha. reflexivity. }
@@ -979,9 +981,9 @@ Proof.
       symmetry. apply in_range_false_iff. apply in_range_false_iff in Ev. rewrite <- HL. lia.
 Qed.
 
-Lemma factorial_c_correct : forall n, impl_factorial_c n = Some (spec_factorial n).
+Lemma factorial_correct : forall n, impl_factorial n = Some (spec_factorial n).
 Proof.
-  intros n. unfold impl_factorial_c, spec_factorial. fold (zf n). destruct (n <? 0) eqn:E0; [reflexivity|].
+  intros n. unfold impl_factorial, spec_factorial. fold (zf n). destruct (n <? 0) eqn:E0; [reflexivity|].
   destruct ((n =? 0) || (n =? 1)) eqn:E1.
   - assert (n = 0 \/ n = 1) as [H|H] by lia; subst n; vm_compute; reflexivity.
   - rewrite (fact_loop_spec fact_fuel 2 n 1); try lia; try reflexivity.
@@ -989,10 +991,10 @@ Proof.
     + unfold fact_fuel. lia.
 Qed.
 
-Lemma shr_c_correct : forall sg w a b, 0 < w <= 2 ^ 31 -> in_range Signed 32 b = true -> in_range sg w a = true ->
-  impl_shr_c sg w a b = spec_shr sg w a b.
+Lemma shr_correct : forall sg w a b, 0 < w <= 2 ^ 31 -> in_range Signed 32 b = true -> in_range sg w a = true ->
+  impl_shr sg w a b = spec_shr sg w a b.
 Proof.
-  intros sg w a b Hw Hb Ha. unfold impl_shr_c, spec_shr. destruct (b <? 0) eqn:E.
+  intros sg w a b Hw Hb Ha. unfold impl_shr, spec_shr. destruct (b <? 0) eqn:E.
   - pose proof (as_u32_neg b ltac:(lia) Hb). replace (as_u32 b <? w) with false by lia.
     replace (0 <? b) with false by lia. reflexivity.
   - rewrite as_u32_nonneg by (assumption || lia). rewrite Z.shiftr_div_pow2 by lia.
@@ -1019,9 +1021,9 @@ Proof.
     repeat match goal with |- context [if ?c then _ else _] => destruct c end; discriminate.
 Qed.
 
-Lemma round_c_never_panics : forall kd p s n v, impl_round_c kd p s n v <> Panic.
+Lemma round_never_panics : forall kd p s n v, impl_round kd p s n v <> Panic.
 Proof.
-  intros kd p s n v. unfold impl_round_c, round_bind_c, checked.
+  intros kd p s n v. unfold impl_round, round_bind, checked.
   destruct (in_range Signed 8 n); [|discriminate].
   destruct (in_range Signed 8 (s - Z.min n s)); cbn [bind_out]; [|discriminate].
   destruct (in_range Signed (prim_bits kd) (10 ^ Z.abs (s - Z.min n s))); cbn [bind_out]; [|discriminate].
@@ -1030,13 +1032,13 @@ Proof.
   contradiction.
 Qed.
 
-Lemma round_c_correct_partial : forall kd p s n v, 0 <= p <= maxp kd -> -128 <= s ->
+Lemma round_correct_partial : forall kd p s n v, 0 <= p <= maxp kd -> -128 <= s ->
   in_range Signed 8 n = true -> s - Z.min n s <= maxp kd -> Z.abs v < 10 ^ p ->
-  impl_round_c kd p s n v = spec_round p s n v.
+  impl_round kd p s n v = spec_round p s n v.
 Proof.
-  intros kd p s n v Hp Hs Hn Hd Hv. rewrite <- (round_correct_partial Debug kd p s n v) by assumption.
-  unfold impl_round_c, impl_round. f_equal.
-  rewrite round_bind_ok by assumption. unfold round_bind_c. rewrite Hn.
+  intros kd p s n v Hp Hs Hn Hd Hv. rewrite <- (old_round_correct_partial Debug kd p s n v) by assumption.
+  unfold impl_round, old_impl_round. f_equal.
+  rewrite old_round_bind_ok by assumption. unfold round_bind. rewrite Hn.
   assert (Hm : maxp kd <= 38) by (destruct kd; cbn; lia).
   replace (in_range Signed 8 (s - Z.min n s)) with true by (symmetry; apply signed_range; cbn; lia).
   cbn [bind_out]. rewrite Z.abs_eq by lia.
@@ -1046,8 +1048,41 @@ Proof.
   symmetry. apply in_range_iff. lia.
 Qed.
 
-Lemma round_c_witness : impl_round_c D64 10 4 (-128) 1 = Err /\ impl_round_c D64 10 4 (-2) 12545678 = Ok (-2, 13).
+Lemma round_witness : impl_round D64 10 4 (-128) 1 = Err /\ impl_round D64 10 4 (-2) 12545678 = Ok (-2, 13).
 Proof. vm_compute. split; reflexivity. Qed.
+
+Lemma shr_in_range : forall sg w a b v, 0 < w -> in_range sg w a = true -> impl_shr sg w a b = Ok v ->
+  in_range sg w v = true.
+Proof.
+  intros sg w a b v Hw Ha H. unfold impl_shr in H.
+  pose proof (pow2_pos (w - 1) ltac:(lia)) as Hp1. pose proof (pow2_pos w ltac:(lia)).
+  apply in_range_iff in Ha.
+  assert (Hdiv : forall d, 0 < d -> in_range sg w (a / d) = true).
+  { intros d Hd. apply in_range_iff.
+    assert (Hdm := Z.div_mod a d ltac:(lia)). assert (Hm := Z.mod_pos_bound a d Hd).
+    destruct sg; cbn [lo hi] in *; nia. }
+  destruct (as_u32 b <? w).
+  - inversion H. apply Hdiv. apply pow2_pos. unfold as_u32. apply Z.mod_pos_bound. lia.
+  - destruct (0 <? b); inversion H.
+    + pose proof (Hdiv (2 ^ (w - 1)) Hp1) as H1. apply in_range_iff in H1. apply in_range_iff.
+      assert (Hdm := Z.div_mod (a / 2 ^ (w - 1)) 2 ltac:(lia)). assert (Hm := Z.mod_pos_bound (a / 2 ^ (w - 1)) 2 ltac:(lia)).
+      destruct sg; cbn [lo hi] in *; lia.
+    + apply in_range_iff. destruct sg; cbn [lo hi]; lia.
+Qed.
+
+(* what remains: an error although the rounded value is representable *)
+Lemma round_refuted :
+  impl_round D64 18 18 (-1) 5 = Err /\ spec_round 18 18 (-1) 5 = Ok (-1, 0) /\
+  impl_round D64 10 4 128 1 = Err /\ spec_round 10 4 128 1 = Ok (4, 1) /\
+  impl_round D64 10 4 (-128) 1 = Err /\ spec_round 10 4 (-128) 1 = Ok (-128, 0).
+Proof. vm_compute. repeat split; reflexivity. Qed.
+
+Lemma current_witnesses :
+  impl_gcd 8 (-128) 6 = Some (Ok 2) /\ impl_gcd 8 (-128) (-128) = Some Err /\ impl_gcd 64 (- 2 ^ 63) 0 = Some Err /\
+  impl_lcm 8 127 126 = Some Err /\ impl_lcm 8 (-128) 127 = Some Err /\ impl_lcm 8 (-64) (-1) = Some (Ok 64) /\
+  impl_factorial (-1) = Some Err /\ impl_factorial 34 = Some Err /\
+  impl_shr Signed 8 (-1) 8 = Ok (-1) /\ impl_shr Unsigned 8 200 8 = Ok 0 /\ impl_shr Signed 32 (-8) (-1) = Ok 0.
+Proof. vm_compute. repeat split; reflexivity. Qed.
 
 (* ------------------------------------------------------------------ which variant the source has *)
 Definition style_of (k : Z) : style := if k =? 0 then Checked else Native.
@@ -1056,3 +1091,9 @@ Lemma src_variants_known : exists g l f s r,
   gcd_native = Some g /\ lcm_native = Some l /\ factorial_null = Some f /\ shr_zero_fill = Some s /\
   d2d_scale_sub_native = Some r /\ In g [0; 1] /\ In l [0; 1] /\ In f [0; 1] /\ In s [0; 1] /\ In r [0; 1].
 Proof. do 5 eexists. repeat split; try reflexivity; vm_compute; tauto. Qed.
+
+(* the source has the repaired variant of all five files: the theorems about impl_gcd, impl_lcm, impl_factorial,
+   impl_shr, impl_round are theorems about the current source *)
+Lemma src_is_repaired :
+  gcd_native = Some 0 /\ lcm_native = Some 0 /\ factorial_null = Some 0 /\ shr_zero_fill = Some 0 /\ d2d_scale_sub_native = Some 0.
+Proof. repeat split; reflexivity. Qed.
